@@ -147,22 +147,70 @@ class InjectedFault(Exception):
         self.uid = uid
 
 
+class InjectedStop(StopIteration, InjectedFault):
+    """the classic unguarded next() inside a user function"""
+    def __init__(self, uid):
+        StopIteration.__init__(self, uid)
+        self.uid = uid
+
+
+class InjectedKey(KeyError, InjectedFault):
+    def __init__(self, uid):
+        KeyError.__init__(self, uid)
+        self.uid = uid
+
+
+class InjectedValue(ValueError, InjectedFault):
+    def __init__(self, uid):
+        ValueError.__init__(self, uid)
+        self.uid = uid
+
+
+FAULT_CLASSES = {'exception': InjectedFault, 'stopiteration': InjectedStop, 'keyerror': InjectedKey,
+                 'valueerror': InjectedValue}
+
+
 class Faulty:
-    """Wraps a user function; raises InjectedFault on the listed call indices
-    (counted per wrapped function instance).  Logs each invocation."""
-    def __init__(self, name, fn, fail_calls=(), calls_log=None):
+    """Wraps a user function; raises an injected fault on the listed call indices (counted per wrapped function
+    instance).  Logs each invocation; a raised fault is also written to the recorder log (kind FAULT) together
+    with the metadata identities of the enclosing update() call."""
+    def __init__(self, name, fn, fail_calls=(), calls_log=None, exc_class=InjectedFault, log=None, defer=False):
         self.name = name
         self.fn = fn
         self.fail = set(fail_calls)
         self.n = 0
         self.calls_log = calls_log
+        self.exc_class = exc_class
+        self.log = log
+        self.defer = defer          # fail inside the awaitable the function returns (asynchronous sink)
         self.__name__ = getattr(fn, '__name__', name)
+
+    def _fault(self, i, cause, inherited):
+        exc = self.exc_class((self.name, i))
+        if self.log is not None:
+            self.log.add('FAULT', self.name.split(':')[0], exc, cause, inherited)
+        return exc
 
     def __call__(self, *a, **k):
         i = self.n
         self.n += 1
         if self.calls_log is not None:
             self.calls_log.append((self.name, i))
+        cause, inherited = frozenset(), False
+        if self.log is not None:
+            cause = self.log.cause_stack[-1] if self.log.cause_stack else frozenset()
+            last = self.log.ev[-1] if self.log.ev else None
+            nid = self.name.split(':')[0]
+            inherited = bool(last is not None and last[2] == 'IN' and last[3] == nid and not last[6])
+        if self.defer:
+            import asyncio
+
+            async def body():
+                await asyncio.sleep(0)
+                if i in self.fail:
+                    raise self._fault(i, cause, inherited)
+                return self.fn(*a, **k)
+            return body()
         if i in self.fail:
-            raise InjectedFault((self.name, i))
+            raise self._fault(i, cause, inherited)
         return self.fn(*a, **k)
